@@ -211,11 +211,11 @@ package retrypolicy
 //@   let last := cast(ret(innerFn, n), *common.PolicyResult)
 //@   let lastFailed := isFailureOf(e.BaseExecutor, last.Result, last.Error)
 //@   ensures [C02.exceeded_passthrough] ex0 ==> n == 1
-//@   ensures [C02.exceeded_untouched] ex0 && !cancA ==> result == ret(innerFn, 1) && e.failedAttempts == fa0
+//@   ensures [C02.exceeded_untouched+C01.reentry.exceeded_untouched] ex0 && !cancA ==> result == ret(innerFn, 1) && e.failedAttempts == fa0
 //@   ensures [C16.retry.exceeded_once] ex0 && !cancA ==> ncalls(e.onRetriesExceeded) == 0 && ncalls(e.onAbort) == 0
 //@   ensures [C16.retry.exceeded_once_b] ex0 && !cancA && e.BaseFailurePolicy != nil ==> ncalls(e.onFailure) == 0
-//@   ensures [C02.every_failure_handled] !ex0 && !cancA && lastFailed ==> e.failedAttempts - fa0 == n
-//@   ensures [C02.success_stops] !ex0 && !cancA && !lastFailed ==> e.failedAttempts - fa0 == n - 1 && result.Result == last.Result && result.Error == last.Error && result.Done && result.Success
+//@   ensures [C02.every_failure_handled+C01.reentry.every_failure_handled] !ex0 && !cancA && lastFailed ==> e.failedAttempts - fa0 == n
+//@   ensures [C02.success_stops+C01.reentry.success_stops] !ex0 && !cancA && !lastFailed ==> e.failedAttempts - fa0 == n - 1 && result.Result == last.Result && result.Error == last.Error && result.Done && result.Success
 //@   ensures [C08.retry.cancel_reported] cancA ==> result == ret(exec.IsCanceledWithResult, n, 1)
 //@   ensures [C02.checks_cancel_each_attempt] ncalls(exec.IsCanceledWithResult) == n
 //@   ensures [C02.only_after_failure] forall i int :: 1 <= i && i < n ==> attemptFailed(e, ret(innerFn, i))
